@@ -29,12 +29,16 @@ def cases(tier, seed):
     rng = np.random.default_rng([12, seed])
     F, per = (3, 4) if tier == "quick" else (5, 24)
     out = []
+    kc = 0      # running number of the structures with a prescribed combination of term kinds: every one of the 16 comes up in turn
     for ci, cellkind in enumerate(("ortho", "tri", "rotated", "rotated_ortho")):
         for j in range(per):
             s = int(rng.integers(1 << 30))
+            free = (ci * per + j) % 4 == 3 or j == 1
+            combo = None if free else (kc * 7 + seed) % 16
+            kc += 0 if free else 1
             for dims in itertools.product(range(1, F + 1), repeat=3):
                 out.append({"cell": cellkind, "s": s, "dims": list(dims), "n": 1 if j == 1 else 1 + (s + j) % 7, "impropers": j % 2 == 0, "origin": j % 2 == 1,
-                            "combo": (ci * per + j) * 7 % 16 if ((ci * per + j) % 4 != 3 and j != 1) else None})
+                            "combo": combo})
     return out
 
 
